@@ -25,7 +25,7 @@ from dst.c20 import pool
 
 STEP_CAP = 2_000_000
 
-OP_KINDS = ["des", "ser", "ser_any", "des_method", "ser_method", "des_schema", "ser_schema", "defs_schema"]
+OP_KINDS = ["des", "ser", "ser_any", "des_method", "ser_method", "des_schema", "ser_schema", "defs_schema", "gql_print"]
 
 PROBE_SITES = {
     "is_recursive": "is_recursive_concurrent",
@@ -167,6 +167,16 @@ def _call(op: list):
     if kind == "defs_schema":
         o.pop("additional_properties", None)
         return definitions_schema(deserialization=[tp], serialization=[tp], **o)
+    if kind == "gql_print":
+        import graphql
+        from apischema.graphql import graphql_schema
+
+        def query():
+            return None
+
+        query.__annotations__ = {"return": tp}
+        kw = {"aliaser": o["aliaser"]} if "aliaser" in o else {}
+        return graphql.print_schema(graphql_schema(query=[query], **kw))
     raise ValueError(kind)
 
 
